@@ -2454,6 +2454,7 @@ def corr_extra(ctx, sf, fx):
             u = rng.random()
             return rng.choice([0.5, 0.0, 0.25, 0.500004, 0.50002]) if u < 0.8 else "x"
         la, pa = [larg(), larg()], [parg(), parg()]
+        enc = lambda a: ([Fraction(a).limit_denominator(10 ** 7).numerator, Fraction(a).limit_denominator(10 ** 7).denominator] if not isinstance(a, str) else a)
         txt = lambda a: ("{" + a[4:] + "}") if isinstance(a, str) and a.startswith("sym:") else ("2*{r0}" if a == "2*r0" else repr(a))
         layout = f"name t\nversion 1.0\n\nSgate({txt(la[0])}, {txt(la[1])}) | 0\n"
         prog = sf.Program(1)
@@ -2475,9 +2476,26 @@ def corr_extra(ctx, sf, fx):
         if "x" not in pa:
             bbp = blackbird.loads("name t\nversion 1.0\n\nSgate(%r, %r) | 0\n" % (pa[0], pa[1]))
             impl["fixed"] = bool(pu._fixed_layout_values_match(blackbird.loads(layout), bbp))
+        if rng.random() < 0.4:
+            # the program's argument is a per-time-bin array variable (TDM program through to_blackbird)
+            import strawberryfields.io as sio_
+            tb = rng.randint(1, 5)
+            base_ = rng.choice([0.5, 0.25])
+            arr_ = [base_ + rng.choice([0.0, 0.0, 0.0, 4e-6, 2e-5, 0.25]) for _ in range(tb)]
+            la = [rng.choice(["sym:r0", 0.5, 0.25]), rng.choice([0.5, 0.25, "sym:r1"])]
+            tprog = sf.TDMProgram(N=1)
+            with tprog.context([0.1] * tb, arr_) as (p_, q_):
+                ops.Sgate(p_[0], p_[1]) | q_[0]
+                ops.MeasureHomodyne(0.0) | q_[0]
+            layout2 = f"name t\nversion 1.0\n\nSgate({txt(la[0])}, {txt(la[1])}) | 0\nMeasureHomodyne(0.0) | 0\n"
+            impl = dict(fixed=bool(pu._fixed_layout_values_match(blackbird.loads(layout2), sio_.to_blackbird(tprog))))
+            case = dict(layout=la, arr=arr_)
+            ctx.count("corr:param_rules:array", case, impl["fixed"] is False)
+            reqs.append(dict(op="hw.paramRules", layout=[enc(a) for a in la], prog=[dict(arr=[enc(0.1)] * tb), dict(arr=[enc(x) for x in arr_])]))
+            pend.append(("parameter rules", case, impl))
+            continue
         case = dict(layout=la, prog=pa)
         ctx.count("corr:param_rules", case, clash or impl.get("fixed") is False)
-        enc = lambda a: ([Fraction(a).limit_denominator(10 ** 7).numerator, Fraction(a).limit_denominator(10 ** 7).denominator] if not isinstance(a, str) else a)
         reqs.append(dict(op="hw.paramRules", layout=[enc(a) for a in la], prog=[enc(a) for a in pa]))
         pend.append(("parameter rules", case, impl))
     return reqs, pend
